@@ -576,6 +576,57 @@ def apply_retype(built: Built, desc2: dict) -> Built:
     return Built(desc2, built.module, built.ns, built.classes, built.start, {p["name"]: [(fn, ft) for fn, ft in p["fields"]] for p in desc2["prods"]})
 
 
+FIXED.append(
+    {  # weights x depth analysis: the zero-weight production is the strictly shallowest of its rule (the minimum depth
+        # of a rule is taken over ALL its productions, so limits down to it must stay usable), at two levels
+        "name": "fx_zero_weight_shallowest",
+        "abstracts": [{"name": "Expr", "parent": None, "style": "abc"}, {"name": "Unit", "parent": None, "style": "abc"}],
+        "prods": [
+            {"name": "Zero", "parent": "Expr", "fields": [], "weight": 0},
+            {"name": "Scaled", "parent": "Expr", "fields": [["k", ["ann", ["int"], ["IntRange", 0, 3]]], ["u", ["ref", "Unit"]]], "weight": 2},
+            {"name": "Neg", "parent": "Expr", "fields": [["e", ["ref", "Expr"]]], "weight": 1},
+            {"name": "Add", "parent": "Expr", "fields": [["l", ["ref", "Expr"]], ["r", ["ref", "Expr"]]], "weight": 1},
+            {"name": "One", "parent": "Unit", "fields": [], "weight": 0.0},
+            {"name": "Box", "parent": "Unit", "fields": [["u", ["ref", "Unit"]], ["n", ["bool"]]], "weight": 3},
+        ],
+        "start": "Expr",
+    }
+)
+
+
+FIXED.append(
+    {  # concrete, recursive start symbol below a holder with several start-typed children (statement blocks)
+        "name": "fx_blocks",
+        "abstracts": [{"name": "Stmt", "parent": None, "style": "abc"}],
+        "prods": [
+            {"name": "Block", "parent": None, "fields": [["stmt", ["ref", "Stmt"]]]},
+            {"name": "Assign", "parent": "Stmt", "fields": [["var", ["ann", ["int"], ["IntRange", 0, 1000000]]], ["value", ["ann", ["int"], ["IntRange", 0, 1000000]]]]},
+            {"name": "If", "parent": "Stmt", "fields": [["cond", ["ann", ["int"], ["IntRange", 0, 1000000]]], ["then", ["ref", "Block"]], ["orelse", ["ref", "Block"]]]},
+            {"name": "Seq", "parent": "Stmt", "fields": [["items", ["ann", ["list", ["ref", "Block"]], ["ListSizeBetween", 2, 3]]]]},
+        ],
+        "start": "Block",
+    }
+)
+
+
+FIXED.append(
+    {  # rules with exactly ONE production that is infeasible in some contexts (n == 0 leaves no name to pick):
+        # backtracking has nothing else to try there and must give up without touching the rule; one level is nested
+        "name": "fx_single_rule",
+        "abstracts": [{"name": "Expr", "parent": None, "style": "abc"}, {"name": "Slot", "parent": None, "style": "abc"}, {"name": "Outer", "parent": None, "style": "abc"}],
+        "prods": [
+            {"name": "Lit", "parent": "Expr", "fields": [["v", ["ann", ["int"], ["IntRange", 0, 9]]]]},
+            {"name": "Use", "parent": "Expr", "fields": [["slot", ["ref", "Slot"]]]},
+            {"name": "Deep", "parent": "Expr", "fields": [["o", ["ref", "Outer"]]]},
+            {"name": "Add", "parent": "Expr", "fields": [["l", ["ref", "Expr"]], ["r", ["ref", "Expr"]]]},
+            {"name": "Pick", "parent": "Slot", "fields": [["n", ["ann", ["int"], ["IntRange", 0, 2]]], ["name", ["dep", ["str"], "n", "varrange_n", 0]]]},
+            {"name": "Shell", "parent": "Outer", "fields": [["inner", ["ref", "Slot"]]]},
+        ],
+        "start": "Expr",
+    }
+)
+
+
 def family(seed: int, n: int, profile="general", with_fixed=True):
     """Yields n descriptors (fixed members first)."""
     out = []
